@@ -129,6 +129,10 @@ class Engine:
             setattr(fi, key, lst)
         return lst.index(s) if s in lst else -1
 
+    def unbound_on(self):
+        c = self.cur_contract
+        return c is not None and getattr(c, "unbound_checks", False) and self.inline_depth == 0 and self.func is not None and self.func.qual == c.qual
+
     def assigned_names(self, fi):
         s = getattr(fi, "_assigned", None)
         if s is None:
@@ -168,7 +172,7 @@ class Engine:
         return "%s:%s" % (self.func.path if self.func else "?", getattr(node, "lineno", "?"))
 
     def oblige(self, name, st, goal, kind, top=False, props=(), node=None, clause=None):
-        full = "%s::%s" % (self.func.qual.replace("pybads.", "", 1), name)
+        full = "%s::%s" % (self.func.qual.replace("pybads.", "", 1) + ("#" + self.variant if getattr(self, "variant", None) else ""), name)
         self.obligations.append(Obligation(full, st.pc, goal, kind, self.func.qual, top, props, self.where(node) if node is not None else None, clause))
         f = getattr(self, "_forced", None)
         if f:
@@ -305,6 +309,8 @@ class Engine:
             if k not in a.env:
                 keys.append(k)
         for k in keys:
+            if k.startswith("#undef:"):
+                continue
             if k.startswith("#ver:"):
                 va, vb = a.env.get(k, 0), b.env.get(k, 0)
                 env[k] = va if va == vb else next(ctx().counter) + 1
@@ -325,6 +331,20 @@ class Engine:
             mr = getattr(env[k], "merged_refs", None)
             if mr is not None:
                 merged_objs.append((env[k].ref, mr[0], mr[1]))
+        # definedness of locals (opt-in unbound-local checks): a local bound on one side only may be unbound afterwards
+        if self.unbound_on():
+            for k in keys:
+                if k.startswith("#undef:"):
+                    k = k[7:]
+                elif is_heap(k) or k.startswith("#"):
+                    continue
+                ua = z3.BoolVal(True) if k not in a.env else a.env.get("#undef:" + k, z3.BoolVal(False))
+                ub = z3.BoolVal(True) if k not in b.env else b.env.get("#undef:" + k, z3.BoolVal(False))
+                u = z3.simplify(z3.If(c, ua, ub))
+                if z3.is_false(u):
+                    env.pop("#undef:" + k, None)
+                else:
+                    env["#undef:" + k] = u
         # two different objects merged into one reference: its declared (typed) fields are the per-branch fields
         for mref, ra, rb in merged_objs:
             sufs = {}
@@ -716,6 +736,9 @@ class Engine:
         head = st.copy()
         kept_shapes = {}
         for nm in list(locals_mod) + list(extra_mod) + list(extra_names):
+            if self.unbound_on() and not is_heap(nm) and (nm not in head.env or ("#undef:" + nm) in head.env):
+                # possibly unbound before the loop and assigned in it: definedness at the head is what the invariant says
+                head.env["#undef:" + nm] = z3.Bool(ctx().fresh("undef_" + nm))
             if nm in head.env or True:
                 old = head.env.get(nm)
                 nv = Val.fresh(nm)
@@ -871,6 +894,7 @@ class Engine:
         kind, key = self.lvalue(t, st)
         if kind == "local":
             st.env[key] = v
+            st.env.pop("#undef:" + key, None)
         elif kind == "heap":
             st.env[key] = v
             self.drop_children(st, key, v)
@@ -944,7 +968,13 @@ class Engine:
         if self.spec is not None and nm in self.spec.lets:
             return self.ev(self.spec.lets[nm], st)
         if nm in st.env:
+            if self.spec is None and ("#undef:" + nm) in st.env and self.unbound_on():
+                # the local is unbound on some of the paths merged into this state: reading it raises there
+                npmodel.raise_if(self, st, st.env.pop("#undef:" + nm), "UnboundLocalError", e)
             return st.env[nm]
+        if self.spec is None and self.unbound_on() and nm in self.assigned_names(self.func) and nm not in self.func.params:
+            npmodel.raise_here(self, st, "UnboundLocalError", e)
+            return Val.fresh("unbound_" + nm)
         if nm in ("np", "numpy", "math", "sys", "copy", "logging", "os", "rnd", "scipy", "gpr", "plt"):
             return Val(py=("module", nm))
         if nm in ("True", "False"):
@@ -1072,7 +1102,7 @@ class Engine:
         r = fn(s2)
         changed = [k for k in s2.env if s2.env.get(k) is not st.env.get(k)]
         for k in changed:
-            if k.startswith("#ver:"):
+            if k.startswith("#ver:") or k.startswith("#undef:"):
                 st.env[k] = s2.env[k]
             else:
                 old = st.env.get(k)
@@ -1122,7 +1152,7 @@ class Engine:
             return v
         if isinstance(e.op, ast.Invert):
             if a is not None and a.dtype == "bool":
-                return Val.of_arr(arr_map1(lambda x: z3.Not(x), a, "bool"))
+                return Val.of_arr(npmodel.invert_mask(a))
             if v.boo is not None:
                 # ~True == -2 (truthy), ~False == -1 (truthy): numpy bools invert logically
                 return Val(boo=z3.Not(v.boo), py=("npbool_invert",))
